@@ -13,7 +13,7 @@ scenario = <v> <pct> <from> <group> <order> <corder> <scal> <prefix> n <column>^
 order  = default ORDER BY of the SqlMethod;  corder = `_order_by` of the call: ~ | V value | S order
 scal   = `_as_scalars` of the call: ~ | 0 | 1
 
-value  = N | I<int> | T<cps>
+value  = N | I<int> | T<cps> | X<bytes>
 arg    = S value | L n value^n | Z n value^n
 cond   = T <field> <op> arg | P <field> arg | A k <field> arg | B k | O n cond^n m (<name> arg)^m | R <text>
          (k: which non-str operation / malformed object the adapter builds; no meaning in the model)
@@ -44,6 +44,7 @@ def pValue : P Value
     | ['N'] => some (.null, ts)
     | 'I' :: r => (parseInt (String.ofList r)).map (fun i => (.int i, ts))
     | 'T' :: r => (parseCps (String.ofList r)).map (fun s => (.text s, ts))
+    | 'X' :: r => (parseNatList (String.ofList r)).map (fun b => (.blob b, ts))
     | _ => none
   | [] => none
 
@@ -201,6 +202,7 @@ def showValue : Value → String
   | .null => "N"
   | .int i => "I" ++ toString i
   | .text s => "T" ++ showCps s
+  | .blob b => "X" ++ showNatList b
 
 def showFail (f : Fail) : String := "err " ++ f.name
 
